@@ -563,7 +563,7 @@ def rule_R7(ctx, f):
         ctx.saw(lc)
         r = lc.term_local(0)
         cnts = agg_field(r, "counts") if r[0] == "agg" else None
-        ok = cnts is not None and any(is_call(s, "Vec::len") and peel(s[2][0])[0] == "field" and peel(s[2][0])[2] == "upper_bounds" for s in subterms(cnts) if isinstance(s, tuple) and s and s[0] == "call")
+        ok = cnts is not None and any(is_call(s, ["Vec::len", "slice::len"]) and peel(s[2][0])[0] == "field" and peel(s[2][0])[2] == "upper_bounds" for s in subterms(cnts) if isinstance(s, tuple) and s and s[0] == "call")
         ctx.ob(rid, "LocalHistogramCore::new|counts-len", ok, "a local histogram must have one local counter per bound of its histogram", site=lc.raw["span"]["at"])
 
 
